@@ -102,6 +102,7 @@ theorem sessionIntercept_some (w : World) (sraw : Option Sess) (whole : Option S
   split at h
   · exact ⟨rfl, _, rfl, Or.inl rfl⟩
   · exact ⟨rfl, _, rfl, Or.inr rfl⟩
+  · exact ⟨rfl, _, rfl, Or.inr rfl⟩
   · exact ⟨rfl, _, rfl, Or.inl rfl⟩
   · exact ⟨rfl, _, rfl, Or.inr rfl⟩
   · cases h
